@@ -115,7 +115,7 @@ func Gen(prop, tier string, seed uint64) *kernel.Plan {
 		k := keyPool[i]
 		c.keys = append(c.keys, k)
 		c.kindOf[k] = kinds[g.Pick([]int{2, 3, 3, 3})]
-		if prop == "C19" && (i == 0 || g.Chance(2, 3)) {
+		if (prop == "C19" && (i == 0 || g.Chance(2, 3))) || (prop == "C11" && g.Chance(1, 3)) {
 			c.kindOf[k] = "doc"
 		}
 	}
@@ -333,6 +333,9 @@ func Gen(prop, tier string, seed uint64) *kernel.Plan {
 				e.Par = append(e.Par, x)
 			}
 			evs = append(evs, e)
+		}
+		if (prop == "C11" || prop == "C19") && g.Chance(1, 8) {
+			evs = append(evs, Ev{T: "patchsync", A: a, S: g.U64() % 100000})
 		}
 		if (prop == "C16" || prop == "C19" || prop == "C12") && g.Chance(1, 12) {
 			k := "restkey"
